@@ -162,15 +162,135 @@ Qed.
 
 (* ================= decode: the date ================= *)
 
-(* float model of parseDVBTime's date = integer model, all 65536 MJD words *)
-Lemma decode_float_sweep :
-  all_range (fun mjd => triple_eqb (DvbFloat.mjd_to_ymd_float mjd) (dvb_ymd mjd)) 0 65535 = true.
+(* ---- evaluating the float64 date computation faster (the kernel re-evaluates the sweeps below without
+   the VM when coqchk runs; these three lemmas cut its time by about 40 %) ---- *)
+
+(* (a) 365.25 = 1461 * 2^42 * 2^-44: the long division by its 53-bit mantissa is a division by 1461 *)
+Definition m365 : positive := 6425545952722944.
+
+Lemma div_eucl_m365 a : 0 <= a ->
+  Z.div_eucl a (Z.pos m365) =
+  (let '(q, r1) := Z.div_eucl (Z.shiftr a 42) 1461 in (q, r1 * 2 ^ 42 + Z.land a (Z.ones 42))).
+Proof.
+  intros Ha. rewrite Z.shiftr_div_pow2, Z.land_ones by lia.
+  destruct (Z.div_eucl a (Z.pos m365)) as [q r] eqn:E.
+  assert (Hq : q = a / Z.pos m365) by (unfold Z.div; rewrite E; reflexivity).
+  assert (Hr : r = a mod Z.pos m365) by (unfold Z.modulo; rewrite E; reflexivity).
+  destruct (Z.div_eucl (a / 2 ^ 42) 1461) as [q2 r2] eqn:E2.
+  assert (Hq2 : q2 = a / 2 ^ 42 / 1461) by (unfold Z.div at 1; rewrite E2; reflexivity).
+  assert (Hr2 : r2 = (a / 2 ^ 42) mod 1461) by (unfold Z.modulo; rewrite E2; reflexivity).
+  subst. change (Z.pos m365) with 6425545952722944. change (2 ^ 42) with 4398046511104.
+  f_equal; lia.
+Qed.
+
+Definition div_core_365 (m1 e1 : Z) : Z * Z * location :=
+  let d1 := Zdigits2 m1 in
+  let d2 := Zdigits2 (Z.pos m365) in
+  let e' := Z.min (fexp DvbFloat.prec DvbFloat.emax (d1 + e1 - (d2 + -44))) (e1 - -44) in
+  let s := e1 - -44 - e' in
+  let m' := match s with Zpos _ => Z.shiftl m1 s | Z0 => m1 | Zneg _ => Z0 end in
+  let '(q, r1) := Z.div_eucl (Z.shiftr m' 42) 1461 in
+  (q, e', new_location (Z.pos m365) (r1 * 2 ^ 42 + Z.land m' (Z.ones 42))).
+
+Definition fdiv_365 (x : spec_float) : spec_float :=
+  match x with
+  | S754_nan => S754_nan
+  | S754_infinity sx => S754_infinity (xorb sx false)
+  | S754_zero sx => S754_zero (xorb sx false)
+  | S754_finite sx mx ex =>
+      let '(mz, ez, lz) := div_core_365 (Z.pos mx) ex in
+      binary_round_aux DvbFloat.prec DvbFloat.emax (xorb sx false) mz ez lz
+  end.
+
+Lemma fdiv_365_eq x : DvbFloat.fdiv x DvbFloat.c_365_25 = fdiv_365 x.
+Proof.
+  destruct literal_bits as (_ & _ & _ & ->). change 6425545952722944%positive with m365.
+  destruct x as [sx|sx| |sx mx ex]; try reflexivity.
+  unfold DvbFloat.fdiv, SFdiv, fdiv_365, SFdiv_core_binary, div_core_365.
+  set (e' := Z.min _ _). set (s := ex - -44 - e').
+  set (m' := match s with Zpos _ => Z.shiftl (Z.pos mx) s | Z0 => Z.pos mx | Zneg _ => 0 end).
+  assert (Hm : 0 <= m').
+  { unfold m'. destruct s; [lia| |lia]. apply Z.shiftl_nonneg. lia. }
+  rewrite (div_eucl_m365 m' Hm).
+  destruct (Z.div_eucl (Z.shiftr m' 42) 1461) as [q r1]. reflexivity.
+Qed.
+
+(* (b) float64(int(float64(yt)*365.25)) and float64(int(float64(mt)*30.6001)) depend on yt and mt only:
+   they are tabulated once per sweep instead of being recomputed for each of the ~365 (~30) days that share them *)
+Definition yd_direct (yt : Z) : DvbFloat.float64 :=
+  DvbFloat.f_of_Z (DvbFloat.trunc (DvbFloat.fmul (DvbFloat.f_of_Z yt) DvbFloat.c_365_25)).
+Definition md_direct (mt : Z) : DvbFloat.float64 :=
+  DvbFloat.f_of_Z (DvbFloat.trunc (DvbFloat.fmul (DvbFloat.f_of_Z mt) DvbFloat.c_30_6001)).
+
+Fixpoint zrange (lo : Z) (n : nat) : list Z := match n with O => [] | S k => lo :: zrange (lo + 1) k end.
+
+Lemma zrange_nth n : forall lo k d, (k < n)%nat -> nth k (zrange lo n) d = lo + Z.of_nat k.
+Proof.
+  induction n as [|n IH]; intros lo k d Hk; [lia|].
+  destruct k as [|k]; cbn [zrange nth]; [lia|]. rewrite IH by lia. lia.
+Qed.
+
+Lemma zrange_length n : forall lo, length (zrange lo n) = n.
+Proof. induction n as [|n IH]; intros lo; cbn [zrange length]; [reflexivity|]. rewrite IH. reflexivity. Qed.
+
+Lemma zrange_in n : forall lo x, lo <= x < lo + Z.of_nat n -> In x (zrange lo n).
+Proof.
+  induction n as [|n IH]; intros lo x H; [lia|]. cbn [zrange In].
+  destruct (Z.eq_dec lo x) as [->|Hne]; [left; reflexivity|right; apply IH; lia].
+Qed.
+
+Definition lookup {A} (f : Z -> A) (lo : Z) (n : nat) (t : list A) (x : Z) : A :=
+  if andb (lo <=? x) (x <? lo + Z.of_nat n) then nth (Z.to_nat (x - lo)) t (f x) else f x.
+
+Lemma lookup_tbl {A} (f : Z -> A) lo n x : lookup f lo n (map f (zrange lo n)) x = f x.
+Proof.
+  unfold lookup. destruct (andb (lo <=? x) (x <? lo + Z.of_nat n)) eqn:E; [|reflexivity].
+  rewrite (nth_indep _ (f x) (f lo)) by (rewrite map_length, zrange_length; lia).
+  rewrite map_nth, zrange_nth by lia. f_equal. lia.
+Qed.
+
+Definition decode_with (yd_of md_of : Z -> DvbFloat.float64) (mjd : Z) : Z * Z * Z :=
+  let fm := DvbFloat.f_of_Z mjd in
+  let yt := DvbFloat.trunc (fdiv_365 (DvbFloat.fsub fm DvbFloat.c_15078_2)) in
+  let yd := yd_of yt in
+  let mt := DvbFloat.trunc (DvbFloat.fdiv (DvbFloat.fsub (DvbFloat.fsub fm DvbFloat.c_14956_1) yd) DvbFloat.c_30_6001) in
+  let md := md_of mt in
+  let d := DvbFloat.trunc (DvbFloat.fsub (DvbFloat.fsub (DvbFloat.fsub fm DvbFloat.c_14956) yd) md) in
+  let k := if orb (mt =? 14) (mt =? 15) then 1 else 0 in
+  (1900 + yt + k, mt - 1 - k * 12, d).
+
+Lemma decode_with_eq yd_of md_of mjd :
+  (forall x, yd_of x = yd_direct x) -> (forall x, md_of x = md_direct x) ->
+  DvbFloat.mjd_to_ymd_float mjd = decode_with yd_of md_of mjd.
+Proof.
+  intros Hy Hm. unfold DvbFloat.mjd_to_ymd_float, decode_with. cbv zeta.
+  rewrite Hy, Hm, fdiv_365_eq. reflexivity.
+Qed.
+
+(* float model of parseDVBTime's date = integer model, for all MJD words from lo to hi *)
+Definition decode_float_sweep_on (lo hi : Z) : bool :=
+  let ty := map yd_direct (zrange (-50) 200) in
+  let tm := map md_direct (zrange 0 24) in
+  all_range (fun mjd => triple_eqb (decode_with (lookup yd_direct (-50) 200 ty) (lookup md_direct 0 24 tm) mjd)
+                                   (dvb_ymd mjd)) lo hi.
+
+Lemma decode_float_sweep_spec lo hi : decode_float_sweep_on lo hi = true ->
+  forall mjd, lo <= mjd <= hi -> DvbFloat.mjd_to_ymd_float mjd = dvb_ymd mjd.
+Proof.
+  unfold decode_float_sweep_on. cbv zeta. intros H mjd Hm.
+  pose proof (all_range_spec _ _ _ H mjd Hm) as E. cbv beta in E. apply triple_eqb_eq in E.
+  rewrite <- E. apply decode_with_eq; intros x; apply lookup_tbl.
+Qed.
+
+(* the 50457 MJD values of the property's range (the other 15079 words, 0..15078, are in
+   Proofs/DvbSupplementProofs.v, outside the cone of Props/C15.v) *)
+Lemma decode_float_sweep : decode_float_sweep_on mjd_lo mjd_hi = true.
 Proof. vm_cast_no_check (eq_refl true). Qed.
 
-Lemma decode_float_int mjd : 0 <= mjd <= 65535 -> DvbFloat.mjd_to_ymd_float mjd = dvb_ymd mjd.
-Proof. intros H. apply triple_eqb_eq, (all_range_spec _ _ _ decode_float_sweep mjd H). Qed.
+Lemma decode_float_int mjd : mjd_lo <= mjd <= mjd_hi -> DvbFloat.mjd_to_ymd_float mjd = dvb_ymd mjd.
+Proof. exact (decode_float_sweep_spec _ _ decode_float_sweep mjd). Qed.
 
-Lemma decode_unix_float_int mjd : 0 <= mjd <= 65535 -> DvbFloat.dvb_date_unix_float mjd = dvb_date_unix mjd.
+Lemma decode_unix_float_int mjd : mjd_lo <= mjd <= mjd_hi -> DvbFloat.dvb_date_unix_float mjd = dvb_date_unix mjd.
 Proof. intros H. unfold DvbFloat.dvb_date_unix_float, dvb_date_unix. rewrite decode_float_int by exact H. reflexivity. Qed.
 
 (* on the range of the property: (y, m, d) is the calendar date of the MJD (no normalisation by
@@ -264,18 +384,21 @@ Proof.
   reflexivity.
 Qed.
 
-(* sweeps: the quotient float64(r seconds) / unit is computed once per r, then added to every q *)
+(* sweeps: float64(q) is tabulated once, the quotient float64(r seconds) / unit is computed once per r *)
 Definition split_sweep (unit rmax qmax : Z) : bool :=
+  let fqs := map (fun q => (q, DvbFloat.f_of_Z q)) (zrange 0 (Z.to_nat (qmax + 1))) in
   all_range (fun r => let x := DvbFloat.fdiv (DvbFloat.f_of_Z (r * ns_second)) (DvbFloat.f_of_Z unit) in
-                      all_range (fun q => DvbFloat.trunc (DvbFloat.fadd (DvbFloat.f_of_Z q) x) =? q) 0 qmax) 0 rmax.
+                      forallb (fun qf => DvbFloat.trunc (DvbFloat.fadd (snd qf) x) =? fst qf) fqs) 0 rmax.
 
 Lemma split_sweep_spec unit rmax qmax : split_sweep unit rmax qmax = true ->
   forall q r, 0 <= q <= qmax -> 0 <= r <= rmax -> split_trunc q r unit = q.
 Proof.
-  intros H q r Hq Hr. unfold split_sweep in H.
-  pose proof (all_range_spec _ _ _ H r Hr) as H1. cbv beta zeta in H1.
-  pose proof (all_range_spec _ _ _ H1 q Hq) as H2. cbv beta in H2.
-  apply Z.eqb_eq in H2. exact H2.
+  intros H q r Hq Hr. unfold split_sweep in H. cbv zeta in H.
+  pose proof (all_range_spec _ _ _ H r Hr) as H1. cbv beta in H1.
+  rewrite forallb_forall in H1.
+  specialize (H1 (q, DvbFloat.f_of_Z q)). cbn [fst snd] in H1.
+  apply Z.eqb_eq, H1.
+  apply (in_map (fun q => (q, DvbFloat.f_of_Z q))), zrange_in. lia.
 Qed.
 
 (* from the three sweeps for durations below (H+1) hours to the three float expressions *)
@@ -300,7 +423,7 @@ Proof.
 Qed.
 
 (* every second of a day (what writeDVBTime needs).  The same three sweeps for all durations below
-   100 h are in Proofs/DvbDuration100hProofs.v, outside the cone of Props/C15.v (coqchk, which does not
+   100 h are in Proofs/DvbSupplementProofs.v, outside the cone of Props/C15.v (coqchk, which does not
    use the VM, would need an extra quarter of an hour for them). *)
 Lemma dur_float_hours_sweep : split_sweep ns_hour 3599 23 = true.
 Proof. vm_cast_no_check (eq_refl true). Qed.
